@@ -115,6 +115,21 @@ func runC12(c *core.Ctx) {
 				c12Channels(c, cfg, b, reg, true)
 			}
 		}
+		// the same channel laws with part of the plan switched off (a sub-band deployment, a single block):
+		// what RX1 channel / frequency belongs to an uplink channel does not depend on which others are enabled
+		if b3, err := cfg.New(); err == nil {
+			n := len(reg.Uplink)
+			for k := 0; k < n; k++ {
+				if !(k/8 == 1 || (k >= 64 && k-64 == 1)) && n > 16 || n <= 16 && k == 0 {
+					b3.DisableUplinkChannelIndex(k)
+				}
+			}
+			c12Channels(c, cfg, b3, reg, true)
+			for k := 0; k < n; k += 3 {
+				b3.EnableUplinkChannelIndex(k)
+			}
+			c12Channels(c, cfg, b3, reg, true)
+		}
 		c12RX1DR(c, cfg, b, reg, snap)
 		c12Defaults(c, cfg, b, reg, snap)
 		c12PingSlot(c, cfg, b, reg, ci)
